@@ -191,7 +191,7 @@ class Kind(object):
                  build=None, draw=None, node_of=None, entity_of=None,
                  reaction=None, reaches_top=None, iq_reply=None, variants=(),
                  solicited_by=None, app_ack=None, reaction_layer=None, forced=(),
-                 raises=None, notes=None):
+                 raises=None, notes=None, routing_variants=()):
         assert direction in ("in", "out")
         assert module in (None, "groups", "media", "privacy", "profiles")
         self.name = name
@@ -211,6 +211,8 @@ class Kind(object):
             self.reaches_top = None
         self.iq_reply = iq_reply
         self.variants = tuple(variants)
+        # shapes that no class documents (C09 does not demand a lossless conversion of them) but that a peer may send: routing only
+        self.routing_variants = tuple(routing_variants)
         self.solicited_by = solicited_by
         self.app_ack = app_ack
         self.reaction_layer = reaction_layer
@@ -223,7 +225,7 @@ class Kind(object):
             self.make_entity = None
 
     def make_node(self, rng, variant=None, request=None):
-        if variant is not None and variant not in self.variants:
+        if variant is not None and variant not in self.variants and variant not in self.routing_variants:
             raise ValueError("kind %s has no variant %r" % (self.name, variant))
         if self.direction == "in":
             return self._build(rng, variant, request)
@@ -1016,13 +1018,20 @@ def _ib(rng, variant, children):
     return N("ib", attrs, children)
 
 
+def _ib_extra(rng, variant):
+    # a second child next to the supported one: the layer decides by the first child it knows, in a fixed order
+    if variant == "with_ignored_child":
+        return [N(rng.choice(("edge_routing", "attestation", "fbip")), {}, None, gen_bytes(rng, 1, 16))]
+    return []
+
+
 def _in_ib_dirty(rng, variant, request):
     return _ib(rng, variant, [N("dirty", {"type": rng.choice(("groups", "account", gen_ascii(rng))),
-                                          "timestamp": gen_ts(rng)})])
+                                          "timestamp": gen_ts(rng)})] + _ib_extra(rng, variant))
 
 
 def _in_ib_offline(rng, variant, request):
-    return _ib(rng, variant, [N("offline", {"count": gen_count(rng)})])
+    return _ib(rng, variant, [N("offline", {"count": gen_count(rng)})] + _ib_extra(rng, variant))
 
 
 def _in_ib_account(rng, variant, request):
@@ -1036,9 +1045,11 @@ def _in_ib_ignored(child):
     return build
 
 
-_in("in.ib.dirty", L_IB, _p(_IBPE, "dirty_ib", "DirtyIbProtocolEntity"), "ib", _in_ib_dirty, variants=IB_VARIANTS)
+_in("in.ib.dirty", L_IB, _p(_IBPE, "dirty_ib", "DirtyIbProtocolEntity"), "ib", _in_ib_dirty, variants=IB_VARIANTS,
+    routing_variants=("with_ignored_child",))
 _in("in.ib.offline", L_IB, _p(_IBPE, "offline_ib", "OfflineIbProtocolEntity"), "ib", _in_ib_offline,
-    variants=IB_VARIANTS, notes="the class docstring documents from=s.whatsapp.net: that is variant with_from")
+    variants=IB_VARIANTS, routing_variants=("with_ignored_child",),
+    notes="the class docstring documents from=s.whatsapp.net: that is variant with_from")
 _in("in.ib.account", L_IB, _p(_IBPE, "account_ib", "AccountIbProtocolEntity"), "ib", _in_ib_account,
     variants=IB_VARIANTS)
 for _c in ("edge_routing", "attestation", "fbip"):
